@@ -70,6 +70,13 @@ def relDist (s r : Option Rat) : Option Rat :=
   | some a, some b => if a = 0 then none else some ((if a - b < 0 then b - a else a - b) / a)
   | _, _ => none
 
+/-- one turn of `greedy_match`'s loop: row minima of the unmasked distances, the row holding the smallest of them, the column of
+    that row's minimum, record the pair and its distance, mask the column, mask the row (`argminEntry` + the two `set`s below) -/
+inductive GreedyStep | rowMinima | rowOfSmallestMinimum | nearestColumnOfThatRow | record | maskColumn | maskRow
+  deriving Repr, DecidableEq
+
+def greedyStepsModel : List GreedyStep := [.rowMinima, .rowOfSmallestMinimum, .nearestColumnOfThatRow, .record, .maskColumn, .maskRow]
+
 /-- the unmasked entry with the smallest distance; ties: first row, then first column (row-major scan keeps the
     earlier entry unless strictly smaller - as `np.ma.argmin` of the row minima, then `argmin` within that row) -/
 def argminEntry (dist : List (List (Option Rat))) (rowUsed colUsed : List Bool) : Option (Nat × Nat × Rat) :=
